@@ -44,6 +44,10 @@ def v1_stream(tree, P, order, pads, trailing_pad):
     """([entries], [chunks]) of the v1 view.  pads: insert BEP 47 pad files so files start on piece boundaries."""
     entries, chunks = [], []
     off = 0
+    # a well-formed metafile has no two entries with the same path: keep pad names clear of real files
+    pad_dir = b".pad"
+    while any(f["path"] and _u(f["path"][0]) == pad_dir for f in order):
+        pad_dir += b"~"
     for i, f in enumerate(order):
         entries.append({b"length": f["size"], b"path": [_u(c) for c in f["path"]]})
         chunks.append(sandbox.file_bytes(f))
@@ -51,7 +55,7 @@ def v1_stream(tree, P, order, pads, trailing_pad):
         last = i == len(order) - 1
         gap = -off % P
         if pads and gap and (not last or trailing_pad):
-            entries.append({b"attr": b"p", b"length": gap, b"path": [b".pad", b"%d" % gap]})
+            entries.append({b"attr": b"p", b"length": gap, b"path": [pad_dir, b"%d" % gap]})
             chunks.append(bytes(gap))
             off += gap
     return entries, chunks
